@@ -134,7 +134,7 @@ func checkC10(c *Ctx) {
 	c.R.Floor("G1.pair", 3)
 	c.R.Floor("G5.layout", 2)
 	c.R.Floor("G3.once", 1)
-	c.R.Floor("T2", 1)
+	c.scopeGuard("scope", len(scope), 3, "library functions reachable from the descriptor readers")
 }
 
 // noDoubleEmission (G3): the UEFI_GUID writer emits the body as type GUID +
